@@ -3,6 +3,7 @@
 package main
 
 import (
+	"strings"
 	"bufio"
 	"bytes"
 	"fmt"
@@ -18,18 +19,21 @@ import (
 // C15 (runnable): a configuration that Load accepts can be run.
 func TestVerifC15Runnable(t *testing.T) {
 	L := ev.Begin("C15", "c15-runnable", "exploration",
-		"every value of glob.cache.size in {-1,0,1,2,1000} x glob.matching.disabled x proxy.strategy x proxy.matcher: if config.Load accepts it, main.newHTTPProxy is built from it and serves 4 lookups over a table with 3 glob hosts (more patterns than a cache of size 1 or 2 holds) without panicking. non-trivial = accepted configuration")
+		"every value of glob.cache.size in {-1,0,1,2,1000} x glob.matching.disabled x proxy.strategy {rr, rnd, other letter case, unknown} x proxy.matcher {prefix, glob, iprefix, other letter case, unknown}: if config.Load accepts it, main.newHTTPProxy is built from it and serves 4 lookups over a table with 3 glob hosts (more patterns than a cache of size 1 or 2 holds) without panicking. non-trivial = accepted configuration")
 	up := httptest.NewServer(http.HandlerFunc(func(w http.ResponseWriter, r *http.Request) { w.Write([]byte("ok")) }))
 	defer up.Close()
-	tbl, err := route.NewTable(bytes.NewBufferString(fmt.Sprintf("route add a *.a.com/ http://%[1]s/\nroute add b *.b.com/ http://%[1]s/\nroute add c *.c.com/ http://%[1]s/\nroute add d / http://%[1]s/\n", up.Listener.Addr().String())))
+	up2 := httptest.NewServer(http.HandlerFunc(func(w http.ResponseWriter, r *http.Request) { w.Write([]byte("ok")) }))
+	defer up2.Close()
+	// the catch-all route has two targets: the configured strategy is only consulted when there is a choice
+	tbl, err := route.NewTable(bytes.NewBufferString(fmt.Sprintf("route add a *.a.com/ http://%[1]s/\nroute add b *.b.com/ http://%[1]s/\nroute add c *.c.com/ http://%[1]s/\nroute add d / http://%[1]s/\nroute add d / http://%[2]s/\n", up.Listener.Addr().String(), up2.Listener.Addr().String())))
 	if err != nil {
 		panic(err)
 	}
 	route.SetTable(tbl)
 	for _, size := range []string{"-1", "0", "1", "2", "1000"} {
 		for _, gd := range []string{"true", "false"} {
-			for _, st := range []string{"rr", "rnd"} {
-				for _, m := range []string{"prefix", "glob", "iprefix"} {
+			for _, st := range []string{"rr", "rnd", "RR", "Rnd", "random"} {
+				for _, m := range []string{"prefix", "glob", "iprefix", "Glob", "PREFIX", "regexp"} {
 					args := []string{"fabio", "-glob.cache.size=" + size, "-glob.matching.disabled=" + gd, "-proxy.strategy=" + st, "-proxy.matcher=" + m}
 					L.Case()
 					var cfg *config.Config
@@ -62,7 +66,11 @@ func TestVerifC15Runnable(t *testing.T) {
 					})
 					if pan {
 						d["panic"], d["stack"] = msg, stack
-						L.Violation("accepted-configuration-panics-at-request-time/glob.cache.size="+size, d)
+						cls := "glob.cache.size=" + size
+						if st != strings.ToLower(st) || m != strings.ToLower(m) {
+							cls = "strategy-or-matcher-in-other-letter-case"
+						}
+						L.Violation("accepted-configuration-panics-at-request-time/"+cls, d)
 					}
 				}
 			}
